@@ -34,13 +34,22 @@ def observe(p):
 
 def sweep(tier, seed):
     from proxy.http.parser import HttpParser
+    from pyvc.guard import time_limit, NativeTimeout
     bad = []
     n = 0
     TAIL = b'GET /next HTTP/1.1\r\n'
     for ptype, msg, tail_ok in family():
         data = msg + (TAIL if tail_ok else b'')
         ref = HttpParser(ptype)
-        ref.parse(memoryview(data))
+        try:
+            with time_limit(10):
+                ref.parse(memoryview(data))
+        except NativeTimeout:
+            bad.append({'message': msg[:60].decode('latin-1'), 'what': 'parse() of the whole message does not return within 10 s'})
+            continue
+        except Exception as e:      # noqa
+            bad.append({'message': msg[:60].decode('latin-1'), 'what': 'one-piece feed raised %r' % (e,)})
+            continue
         want = observe(ref)
         if not want[0]:
             bad.append({'message': msg[:60].decode('latin-1'), 'what': 'one-piece feed does not complete'})
@@ -55,11 +64,15 @@ def sweep(tier, seed):
             complete_at = None
             fed = 0
             try:
-                for a, b in zip(idx, idx[1:]):
-                    p.parse(memoryview(data[a:b]))
-                    fed = b
-                    if p.is_complete and complete_at is None:
-                        complete_at = fed
+                with time_limit(10):
+                    for a, b in zip(idx, idx[1:]):
+                        p.parse(memoryview(data[a:b]))
+                        fed = b
+                        if p.is_complete and complete_at is None:
+                            complete_at = fed
+            except NativeTimeout:
+                bad.append({'message': msg[:60].decode('latin-1'), 'cuts': list(c)[:6], 'what': 'parse() does not return within 10 s'})
+                break
             except Exception as e:      # noqa
                 bad.append({'message': msg[:60].decode('latin-1'), 'cuts': list(c)[:6], 'what': 'raised %r' % (e,)})
                 continue
